@@ -30,7 +30,10 @@ Poly == Polys[PolyId]
 \* node spacing (resolution) per axis in quarters of a length unit: the axes have different resolutions, the lattice of
 \* axis k has N cells of width Spacing[k] / 4; everything below is in lattice indices
 Spacing == <<4, 2, 1>>
-ASSUME PrintT(ToJson([spacing |-> Spacing]))
+\* where the caching area sits: with its lower corner at the origin of the coordinates, or displaced (in quarters of a length
+\* unit per axis); everything below is in lattice indices and holds for either placement
+Origins == [origin |-> <<0, 0, 0>>, offset |-> <<-15, 10, 400>>]
+ASSUME PrintT(ToJson([spacing |-> Spacing, origins |-> Origins]))
 Axis == 0..(N - 1)
 Cells == IF Dim = 1 THEN {<<i>> : i \in Axis} ELSE IF Dim = 2 THEN {<<i, j>> : i \in Axis, j \in Axis} ELSE {<<i, j, k>> : i \in Axis, j \in Axis, k \in Axis}
 St(i) == (i - 1)..(i + 2)
